@@ -178,6 +178,9 @@ class Interp:
                     return m
             if ops.all_concrete(args) and ops.all_concrete(kwargs.values()):
                 return self.native(f, args, kwargs)
+            cargs, ckw = ops.concretize_args(args, kwargs)
+            if ops.all_concrete(cargs) and ops.all_concrete(ckw.values()):
+                return self.native(f, cargs, ckw)
         raise Undecided(f"no model for {f!r} with symbolic arguments")
 
     def native(self, f, args, kwargs):
@@ -226,6 +229,8 @@ class Interp:
                     v = f.default
                 elif f.default_factory is not dataclasses.MISSING:
                     v = f.default_factory()
+                    if type(v) is bytearray:
+                        v = SBytes.const(v, True)
                 elif not f.init:
                     continue
                 else:
